@@ -18,7 +18,7 @@ using namespace OP2Utility;
 inline std::string dump(const Map& m)
 {
 	std::vector<uint8_t> v;
-	mc::put32(v, uint32_t(m.versionTag)); v.push_back(m.isSavedGame ? 1 : 0); mc::put32(v, m.widthInTiles); mc::put32(v, m.heightInTiles);
+	mc::put32(v, m.GetVersionTag()); v.push_back(m.IsSavedGame() ? 1 : 0); mc::put32(v, m.WidthInTiles()); mc::put32(v, m.HeightInTiles());   // the four private fields, through their public getters
 	mc::put32(v, uint32_t(m.tiles.size()));
 	if (!m.tiles.empty()) { const uint8_t* p = reinterpret_cast<const uint8_t*>(m.tiles.data()); v.insert(v.end(), p, p + m.tiles.size() * 4); }
 	mc::put32(v, uint32_t(m.clipRect.x1)); mc::put32(v, uint32_t(m.clipRect.y1)); mc::put32(v, uint32_t(m.clipRect.x2)); mc::put32(v, uint32_t(m.clipRect.y2));
